@@ -61,7 +61,7 @@ func c17(c *Ctx) {
 	for i := 0; i < N; i++ {
 		caseNo++
 		// ---- construct
-		nd := 1 + r.Pick(5)
+		nd := r.Pick(6) // 0: a client built without any controller
 		cfg := ClientCfg{Bind: "0.0.0.0:0", Listen: "0.0.0.0:60001"}
 		if r.Chance(0.6) {
 			cfg.Broadcast = fmt.Sprintf("192.168.%d.255:%d", r.Pick(256), 60000+r.Pick(3))
@@ -135,6 +135,24 @@ func c17(c *Ctx) {
 				list[id] = dev
 			}
 			list[424242] = uhppote.Device{DeviceID: 424242, Address: types.ControllerAddr{AddrPort: netip.MustParseAddrPort("8.8.8.8:8")}}
+			// ... nor for any other client: one built without controllers afterwards still broadcasts for that serial number
+			{
+				u2 := uhppote.NewUHPPOTE(types.BindAddr{AddrPort: addrPort(cfg.Bind)}, types.BroadcastAddr{AddrPort: addrPort(cfg.Broadcast)}, types.ListenAddr{AddrPort: addrPort(cfg.Listen)}, time.Second, nil, false)
+				d2 := &adapter.MemDriver{Scribble: true}
+				adapter.Install(u2, d2)
+				gt := rm.FindOp("GetTime")
+				reply2 := validReply(r, gt, 424242, rm.Vals{})
+				d2.Script = func(adapter.Invocation) ([][]byte, error) { return [][]byte{reply2}, nil }
+				adapter.SafeCall(u2, "GetTime", 424242, rm.Vals{}, adapter.Aux{})
+				c.Res.Eval(1)
+				if inv := d2.Invocations(); len(inv) != 1 || inv[0].Method != "BroadcastTo" {
+					m, a := "", ""
+					if len(inv) > 0 {
+						m, a = inv[0].Method, inv[0].Addr
+					}
+					c.Res.Violate("C17:route:DeviceList-map", fmt.Sprintf("an entry written into the map returned by one client's DeviceList() changed where ANOTHER client (built without controllers) sends: %s %s instead of a broadcast", m, a), map[string]any{"config": fmt.Sprintf("%+v", cfg), "mutation": mutName}, caseNo)
+				}
+			}
 			for id := range list {
 				if r.Chance(0.3) {
 					delete(list, id)
@@ -163,7 +181,7 @@ func c17(c *Ctx) {
 		for k := 0; k < 4; k++ {
 			op := ops[r.Pick(len(ops))]
 			serial := r.Serial()
-			if r.Chance(0.85) {
+			if r.Chance(0.85) && len(cfg.Devices) > 0 {
 				serial = cfg.Devices[r.Pick(len(cfg.Devices))].ID
 			}
 			if mut == 6 && r.Chance(0.2) {
@@ -269,7 +287,10 @@ func c17(c *Ctx) {
 
 		// typed results that hold references (IP, MAC, maps): keep the value, scribble, re-read
 		{
-			serial := cfg.Devices[0].ID
+			serial := r.Serial()
+			if len(cfg.Devices) > 0 {
+				serial = cfg.Devices[0].ID
+			}
 			op := rm.FindOp("GetDevice")
 			reply := validReply(r, op, serial, rm.Vals{})
 			d.Reset()
@@ -378,10 +399,22 @@ func c17(c *Ctx) {
 		{
 			a, p := r.Args(rm.FindOp("PutCard"))
 			card := adapter.BuildCard(a, toAux(p))
+			switch r.Pick(6) { // cards read from a blank record have no dates
+			case 0:
+				card.From = types.Date{}
+			case 1:
+				card.To = types.Date{}
+			case 2:
+				card.From, card.To = types.Date{}, types.Date{}
+			}
 			cl := card.Clone()
 			c.Res.Eval(1)
-			if adapter.PCard(&card).String() != adapter.PCard(&cl).String() {
-				c.Res.Violate("C17:clone:card-unequal", fmt.Sprintf("Card.Clone differs: %v vs %v", cl, card), nil, caseNo)
+			encOf := func(d types.Date) string {
+				b, _ := d.MarshalUT0311L0x()
+				return fmt.Sprintf("%x/%v/%s", b, d.IsZero(), d.String())
+			}
+			if adapter.PCard(&card).String() != adapter.PCard(&cl).String() || encOf(card.From) != encOf(cl.From) || encOf(card.To) != encOf(cl.To) {
+				c.Res.Violate("C17:clone:card-unequal", fmt.Sprintf("Card.Clone differs: %v (from %s, to %s) vs %v (from %s, to %s) (TZ=%s)", cl, encOf(cl.From), encOf(cl.To), card, encOf(card.From), encOf(card.To), time.Local), nil, caseNo)
 			}
 			before := adapter.PCard(&card).String()
 			for k := uint8(0); k < 6; k++ {
